@@ -43,12 +43,24 @@ def item(t):
     return {"id": t, "v": 0.5 * t}, "y%d" % t
 
 
-def project(st):
-    """(sx, sy) as arrival ids / 100 + arrival ids; -1 for anything that is not an observed item"""
+def item_dup(t):
+    """streams with repeated feature vectors: every arrival has the same features, arrivals differ in their target (and
+    in object identity) only"""
+    return {"id": 0, "v": 0.25}, "y%d" % t
+
+
+def project(st, arrivals=None):
+    """(sx, sy) as arrival ids / 100 + arrival ids; -1 for anything that is not an observed item.
+    arrivals (streams with repeated feature vectors): the dict objects fed so far, in order - a stored instance is
+    identified by object identity"""
     xs, ys = st.get_data()
     sx, sy = [], []
     for x in xs:
         try:
+            if arrivals is not None:
+                hits = [i + 1 for i, a in enumerate(arrivals) if a is x]
+                sx.append(hits[0] if len(hits) == 1 and x == item_dup(0)[0] else -1)
+                continue
             t = x["id"]
             sx.append(int(t) if x == item(t)[0] else -1)
         except Exception:
@@ -61,7 +73,7 @@ def project(st):
     return sx, sy
 
 
-def record_run(kind, cap, targets, p, n, seed, pass_y_keyword=False, extreme=False, no_target_share=True):
+def record_run(kind, cap, targets, p, n, seed, pass_y_keyword=False, extreme=False, no_target_share=True, dup_x=False):
     """Seeded run of the real class; one event per update."""
     random.seed(seed)
     np.random.seed(seed % 2 ** 32)
@@ -72,12 +84,15 @@ def record_run(kind, cap, targets, p, n, seed, pass_y_keyword=False, extreme=Fal
     # a second live object of the same class (other capacity), fed other items in lockstep: objects must not share state
     comp = make(kind, 1 if kind == "sequence" else cap + 2, not targets, p) if seed % 2 else None
     ev = []
+    arrivals = [] if dup_x else None
     none = []          # arrivals whose target is None: the update omitted y, or passed None, on a storage that keeps targets
     for t in range(1, n + 1):
         if comp is not None:
             comp.update({"id": -t, "v": -1.0}, "decoy%d" % t)
-        bx, by = project(st)
-        x, y = item(t)
+        bx, by = project(st, arrivals)
+        x, y = item_dup(t) if dup_x else item(t)
+        if dup_x:
+            arrivals.append(x)
         d0 = len(tape.log)
         try:
             if targets and no_target_share and (seed + 7 * t) % 11 < 3:
@@ -96,7 +111,7 @@ def record_run(kind, cap, targets, p, n, seed, pass_y_keyword=False, extreme=Fal
             raise
         except Exception:
             pass        # update() raised: the content logged below is then not a successor of the one before (storage.kind_law)
-        ax, ay = project(st)
+        ax, ay = project(st, arrivals)
         ev.append({"t": t, "before": {"sx": bx, "sy": by}, "after": {"sx": ax, "sy": ay}, "len": len(st),
                    "draws": [[d["kind"], d["range"] or 0, d["v"] if isinstance(d["v"], int) else 0] for d in tape.log[d0:]]})
     tape.__exit__(None, None, None)
